@@ -67,7 +67,33 @@ Supported subset
               is joined (`let '(a, b) := if c then .. else .. in`; str / int values are injected into
               dyn, T into optional T where the branches differ; option-valued if a branch may raise),
               any other `if` duplicates the continuation into both branches.
-  fragments   RouteTr (the section-letter chain of LASFile.read), HeaderPostTr (read_header_line's loop
+  more        (second round) int-keyed dicts, range(n), enumerate(l), {k: v for x in l}, [e, ...], list + list,
+              l[i] on a list, `l[i].attr = v` (attr setters named by the spec), `x = l[i]; x.set_session_mnemonic_only(m)`
+              (the element of l changes; alias tracked until l, i or x is rebound), `flag is False`,
+              `"...%d..." % n` through a rendering the spec names (never computed by the translator),
+              str.rjust, `k in d`, `name in section` / `section.NAME` (the translated SectionItems.__contains__ /
+              __getitem__ on a (flag, items) pair), calls of translated module-level functions of the same module,
+              calls with keyword arguments of nested functions translated on their own (NestedDefTr; the def's
+              parameter defaults are re-evaluated at the call, refused if their variables are assigned after the
+              def), re.match(<pattern of fragments>, s) and m.groupdict() (pyo_groupdict), m is None;
+              statements: `while c: body` (a local fixpoint on a fuel the spec declares per loop; out of fuel =
+              None), `break` in a for loop (sum-valued fold: left = the loop was left), `if x is None: A else: B`
+              on an optional (a match; in B the name is the value), `if <test>: <only logging>` (skipped like
+              logging), `file_object.write(e)` for the spec's sink (the text written so far grows by e),
+              `try: BODY except <TypeError|IndexError|KeyError|ValueError>: HANDLER` (every operation of BODY that
+              raises that class continues with HANDLER with the variables as they are at that point; operations
+              whose exception class is unknown are refused there), statements the spec rewrites to an oracle
+              assignment (`stmt_rewrites`: numpy in-place masked assignment), `return`-less mutator methods
+              (MutatorTr: self is the list, super(C, self).append / insert / __setitem__ / __delitem__ are the
+              list operations, a call of another translated mutator replaces self).
+  refused     a translated name that is bound a second time in its module / class (or assigned through
+              Class.name / setattr / global) is refused: the translation would not be what runs.
+  fragments   BlockTr (a block of a big method from an anchor statement to the end of its statement list, or its
+              first n statements, as a function of its free variables, self.<attr> as locals): the steering block,
+              the reader_n_columns decision and the column-binding block of LASFile.read, the len_numeric_field
+              block and the row loop of writer.write.  NestedDefTr: get_column_fmt, get_left_spacing,
+              format_data_section_line of writer.write.
+              RouteTr (the section-letter chain of LASFile.read), HeaderPostTr (read_header_line's loop
               over m.groupdict()): located by shape, every other statement of the host function must
               not touch the fragment's variables.  ParserInitTr (SectionParser.__init__ as a function of
               (title, version) returning the attributes it sets): every self.<attr> becomes a local
